@@ -14,8 +14,9 @@ CLAIMED = {
         "absent iff the lists are element-wise equal (under reflexivity on the target's elements); theorems are parametric in cutoff and edit costs, which the "
         "translator re-reads from /repo on every run and whose side conditions (1 <= cutoff, 1 <= each cost) are re-proved by computation. Tie: the extracted "
         "model and /repo's hirschberg/levenshtein are run on the same seeded inputs and the scripts are compared verbatim; the oracle applies the real diff through "
-        "the real rope into Vec/LinkedList/VecDeque.",
-   note=TB + "Lists are unbounded nat-indexed lists; usize overflow is not modelled. The rev==true arm of changelist_from_change_table is dead code and not modelled.",
+        "the real rope into Vec/LinkedList/VecDeque. Inputs include lopsided and long-run pairs around 256 elements (65 536 and more in the thorough tier, oracle only), "
+        "where arithmetic in narrow integers would show.",
+   note=TB + "Lists are unbounded nat-indexed lists; usize overflow is not modelled; the translator pins every narrowing cast / wrapping / saturating / checked operation of the modelled file (tools/arith_sites.json): a new one breaks the tie. The rev==true arm of changelist_from_change_table is dead code and not modelled.",
    technique="Coq proof (induction on table/backtrack/fuelled divide-and-conquer) + translator for constants + differential execution of the extracted model",
    design="5/C07"),
  'C09': dict(
@@ -129,9 +130,9 @@ CLAIMED = {
    technique="Coq proof parametric in all hash iteration orders + Coq proof that the assertion sites are unreachable + pinned cfg(feature) sites + enumeration of feature sets (exhaustive in thorough)",
    design="5/C16"),
  'C17': dict(
-   text="PARTIAL. Proved (Coq): the macro's field-type parser (derive/src/parse.rs::next_type transcribed branch by branch on proc-macro token trees) consumes every well-formed type of the grammar of supported field types (paths, nested generics, references with/without lifetimes, tuples incl. unit and 1-tuples, arrays with literal or named length, never, lifetime arguments) EXACTLY, in every legal context, never panics, and yields the tree the templates expect (parse_complete; option_is_recognised); and the macro's type printer (Type::full / Category::path, modelled on the tokens of the printed string) gives back exactly the tokens the user wrote for every such type (print_parse_roundtrip: 1-tuples keep their comma, nested generics, references, arrays). The proof itself produced finding D10 (a reference to a reference is not one type). TESTED, not proved: that rustc accepts the expansion and that the result obeys C01 — generated declarations (struct/field visibility, generic type/lifetime/const parameters with inline bounds, where clauses, defaults, doc comments, foreign attributes, raw-identifier fields, every difference attribute in several spellings incl. trailing commas, expose, enums with unit/tuple/struct variants) are compiled against /repo and each runs a round-trip + frame + diff_ref + self-diff test. Tie of the parser and printer models: /repo's own parser and printer (included by path in a proc-macro; the printed string is lexed again by rustc's lexer) and the extracted models run on the same generated token trees; independently, a supported type must print back as the tokens written. Known-bad constructs are compiled one by one: listed findings print KNOWN-FINDING, anything else is a violation.",
-   note=TB + "Found and repaired D4 (commit b511edd: raw identifiers in composed names) and D7 (commit 23b505e: trailing comma in attribute lists). Known findings kept (not small/safe repairs): D5 (all fields skipped / empty struct), D6 (recurse on a generic-typed field), D8 (parameter used only behind a reference), D9 (bare reference field), D10 (reference to reference). The generics splitting, identifier formation and scoping of the expansion are not modelled in Coq; they are exercised by the compile test.",
-   technique="Coq proof of the type parser and of the type printer (parse then print = the tokens written; nested induction over the grammar) + parser/printer dump vs extracted model + printer oracle + compile-and-run of generated declarations (test) + known-findings list",
+   text="PARTIAL. Proved (Coq): the macro's field-type parser (derive/src/parse.rs::next_type transcribed branch by branch on proc-macro token trees) consumes every well-formed type of the grammar of supported field types (paths, nested generics, references with/without lifetimes, tuples incl. unit and 1-tuples, arrays with literal or named length, never, lifetime arguments) EXACTLY, in every legal context, never panics, and yields the tree the templates expect (parse_complete; option_is_recognised); and the macro's type printer (Type::full / Category::path, modelled on the tokens of the printed string) gives back exactly the tokens the user wrote for every such type (print_parse_roundtrip); the whole declaration parser — #[difference(..)] and foreign attributes, visibility, named fields, lifetime / type / const parameters with bounds and defaults, where clauses — maps every well-formed declaration of the grammar to exactly the expected structure without panic or leftover (struct_parse_complete); the attribute readers of shared.rs do not depend on how items are grouped, comma-terminated or ordered (interpretation_stable, attribute_readings). The proof itself produced finding D10 (a reference to a reference is not one type). TESTED, not proved: that rustc accepts the expansion and that the result obeys C01 — generated declarations (struct/field visibility, generic type/lifetime/const parameters with inline bounds, where clauses, defaults, doc comments, foreign attributes, raw-identifier fields, every difference attribute in several spellings incl. trailing commas, expose, enums with unit/tuple/struct variants) are compiled against /repo and each runs a round-trip + frame + diff_ref + self-diff test. Tie of the parser and printer models: /repo's own parser and printer (included by path in a proc-macro; the printed string is lexed again by rustc's lexer) and the extracted models run on the same generated token trees; independently, a supported type must print back as the tokens written. Known-bad constructs are compiled one by one: listed findings print KNOWN-FINDING, anything else is a violation.",
+   note=TB + "Found and repaired D4 (commit b511edd: raw identifiers in composed names) and D7 (commit 23b505e: trailing comma in attribute lists). Known findings kept (not small/safe repairs): D5 (all fields skipped / empty struct), D6 (recurse on a generic-typed field), D8 (parameter used only behind a reference), D9 (bare reference field), D10 (reference to reference). The string templates of derive/src/difference.rs (identifier formation, splicing of generics and bounds, scoping) are not modelled in Coq; they are exercised by the compile test. Enum declarations are outside the declaration-parser model.",
+   technique="Coq proofs about models of the macro's front end (type parser, type printer, declaration parser, attribute readers) + dump of /repo's own front end vs the extracted models + printer and no-panic oracles + compile-and-run of generated declarations (test) + known-findings list",
    design="5/C17"),
  'C14': dict(
    text="Machine-checked proof (Coq): a byte-level model of BOTH wire formats — nanoserde binary (derive: u16 variant index, fields in order; the hand-written impls of the ordered / unordered-array / flat-map / recursive-map diffs with the u8 discriminants translated from /repo; lenient Option tag) and bincode 1.3 fixint of the serde derives (u32 variant index, strict Option tag) — for the diff entries of EVERY wire shape (every field strategy incl. recurse+Option with its two variants, nested to any depth) and for the values travelling inside entries; theorem wire_owned_roundtrip: decoding what the encoder wrote returns exactly the entry list and the untouched rest of the stream for every valid entry list (by mutual induction over the shape with prefix-law combinators; side conditions on the translated tables — consistent, pairwise distinct, fit in u8 — re-proved by computation), hence the decoded diff has the effect of the in-memory one on any base. Tie in both directions on every run: the Coq model DECODES /repo's bytes of diff and of diff_ref in both formats and must read exactly the in-memory diff; /repo decodes and applies the MODEL's bytes; oracle: the serialized DiffRef decoded as the owned type has the same effect on a and on an equivalent base as the in-memory diff.",
